@@ -496,6 +496,36 @@ func checkJSONTags(c *Ctx, rule string, pk *packages.Package) {
 		c.Check(nameObj != nil && okOwn, rule, "codescan.schemaBuilder.buildFromStruct › each field of a multi-name declaration keeps its own name", c.posOf(pk, fd.Pos()), "the default property name is taken from the types.Var being described",
 			"the property name comes only from parseJSONTag (first identifier of the declaration): for `X, Y float64` both fields are published as X and Y is missing although encoding/json writes it")
 	}
+	// a field's schema is built from scratch: building it on top of the entry already in Properties (a property
+	// promoted from an embedded struct that the field shadows) leaves the old $ref / type behind
+	if fd := load.FuncDecl(pk, "schemaBuilder.buildFromStruct"); fd != nil {
+		n, stale := 0, ""
+		ast.Inspect(fd.Body, func(m ast.Node) bool {
+			call, ok := m.(*ast.CallExpr)
+			if !ok || len(call.Args) != 2 {
+				return true
+			}
+			if fn := goan.Callee(info, call); fn == nil || fn.Name() != "buildFromType" {
+				return true
+			}
+			cl, ok := ast.Unparen(call.Args[1]).(*ast.CompositeLit)
+			if !ok || len(cl.Elts) == 0 {
+				return true
+			}
+			un, ok := ast.Unparen(cl.Elts[0]).(*ast.UnaryExpr)
+			if !ok || un.Op != token.AND {
+				return true
+			}
+			n++
+			def := goan.ResolveLocal(info, fd.Body, un.X)
+			if ix, ok := ast.Unparen(def).(*ast.IndexExpr); ok && goan.LastSel(ix.X) == "Properties" {
+				stale = goan.ExprString(def)
+			}
+			return true
+		})
+		c.Check(n > 0 && stale == "", rule, "codescan.schemaBuilder.buildFromStruct › a field's schema starts empty", c.posOf(pk, fd.Pos()), "not built on top of an entry of Properties",
+			"the schema of a field is built on top of "+stale+": when the field shadows a property promoted from an embedded struct, the $ref or type of the shadowed property stays in the result ({type: string, $ref: …})")
+	}
 	// an embedded field named by its json tag is a property of that name, not an inlined struct
 	if fd := load.FuncDecl(pk, "schemaBuilder.buildFromStruct"); fd != nil {
 		inlineSkipsNamed, plainKeepsNamed := false, false
